@@ -490,3 +490,14 @@ pub fn wf_facts(i: &SInsn, pc: usize, n: usize) -> bool {
         && (pc + 1 < n || i.opc == OP_EXIT || i.opc == OP_JA)
 }
 
+
+/// WITNESS MODE ONLY (never part of a proof): a "small world" in which a counterexample can be re-based on
+/// real buffers - short regions at page-aligned, well separated addresses far from the ends of the address
+/// space.  Counterexample extraction first asks for a witness under this assumption and falls back to an
+/// unconstrained one.
+pub fn small_world_regions(mem: (u64, u64), mbuff: (u64, u64), stack: (u64, u64)) -> bool {
+    let ok = |b: u64, l: u64| l <= 64 && b % 4096 == 0 && b >= 0x10000 && b < (1u64 << 40);
+    let far = |a: u64, b: u64| (if a > b { a - b } else { b - a }) >= 0x10000;
+    ok(mem.0, mem.1) && ok(mbuff.0, mbuff.1) && stack.0 % 4096 == 0 && stack.0 >= 0x10000 && stack.0 < (1u64 << 40)
+        && far(mem.0, mbuff.0) && far(mem.0, stack.0) && far(mbuff.0, stack.0)
+}
